@@ -36,6 +36,8 @@ type Env struct {
 	nontrivial bool
 	flags      map[string]bool
 	noTrace    bool
+	avoidDrawn bool
+	avoidOn    bool
 }
 
 // NewEnv creates an environment around a tape.
@@ -77,6 +79,35 @@ func (e *Env) Nontrivial() { e.nontrivial = true }
 
 // Flag records a boolean config of this run (fault-free/faulty, avoid...).
 func (e *Env) Flag(name string, v bool) { e.flags[name] = v }
+
+// Known reports whether id is listed as a known (open) finding for this check.
+func (e *Env) Known(id string) bool {
+	for _, k := range strings.Split(e.Opts["known"], "+") {
+		if k == id {
+			return true
+		}
+	}
+	return false
+}
+
+// Avoid reports whether this run must steer its generator away from the
+// known finding id: 80% of the runs avoid every known finding and must be
+// completely clean, 20% do not and match findings structurally (DESIGN.md
+// section 7). The share is drawn once per run, lazily, so that tapes of
+// checks without known findings are unaffected. 0 (the shrinker's preferred
+// value) means "do not avoid".
+func (e *Env) Avoid(id string) bool {
+	if !e.Known(id) {
+		return false
+	}
+	if !e.avoidDrawn {
+		e.avoidDrawn = true
+		e.avoidOn = e.T.Draw(5) != 0
+		e.Flag("avoid-known-findings", e.avoidOn)
+		e.Flag("known-findings-allowed", !e.avoidOn)
+	}
+	return e.avoidOn
+}
 
 // Fail records a violation (the first one wins).
 func (e *Env) Fail(oracle, class, format string, args ...any) {
@@ -139,7 +170,7 @@ func RunOnce(fn CheckFn, tape *Tape, tier string, opts map[string]string) (res *
 					panic(hp)
 				}
 				st := string(debug.Stack())
-				env.Fail("no-panic", "panic:"+panicSite(st), "panic in simulated run: %v\n%s", r, trimStack(st))
+				env.Fail("no-panic", "panic:"+PanicSite(st), "panic in simulated run: %v\n%s", r, trimStack(st))
 			}
 		}()
 		fn(env)
@@ -158,17 +189,29 @@ func Harnessf(format string, args ...any) {
 	panic(HarnessPanic{fmt.Sprintf(format, args...)})
 }
 
+// trimStack keeps the function names of a stack trace only: addresses,
+// argument words and goroutine numbers differ between executions and must not
+// reach the trace (the trace digest is what the determinism self-check compares).
 func trimStack(st string) string {
-	lines := strings.Split(st, "\n")
-	if len(lines) > 40 {
-		lines = lines[:40]
+	var out []string
+	for _, l := range strings.Split(st, "\n") {
+		if l == "" || strings.HasPrefix(l, "\t") || strings.HasPrefix(l, "goroutine ") {
+			continue
+		}
+		if i := strings.LastIndex(l, "("); i > 0 {
+			l = l[:i]
+		}
+		out = append(out, l)
+		if len(out) >= 30 {
+			break
+		}
 	}
-	return strings.Join(lines, "\n")
+	return strings.Join(out, "\n")
 }
 
 // panicSite returns the first go-mysql-server frame below the panic, as a
 // stable identifier (function name only, no line numbers or addresses).
-func panicSite(st string) string {
+func PanicSite(st string) string {
 	lines := strings.Split(st, "\n")
 	seenPanic := false
 	for _, l := range lines {
